@@ -23,10 +23,32 @@ fn size_without_last(b: &RawBlock) -> usize {
     last_off + 8 * slots + 4
 }
 
+/// size the next block's first entry would have added to this block (entry bytes, plus a slot if
+/// it would have opened one)
+fn first_entry_cost(next: &RawBlock, this: &RawBlock) -> usize {
+    if next.entries.is_empty() {
+        return 0;
+    }
+    let end = next.entry_offsets.get(1).copied().unwrap_or(next.payload_len);
+    // whether it would open a slot in `this` depends on the interval, which is not known here:
+    // count the slot (8 bytes), the most permissive choice
+    let _ = this;
+    end + 8
+}
+
+/// Lower side of "cut AT the block size": a block that is not the last of its level was emitted
+/// either because it had reached B (cut after reaching, what grenad does) or because the next
+/// entry would have made it reach B (cut before crossing, an equally valid policy). Anything
+/// smaller was cut early for no size reason.
+fn cut_too_early(b: &RawBlock, next: &RawBlock, b_eff: usize) -> bool {
+    b.uncompressed_size() < b_eff && b.uncompressed_size() + first_entry_cost(next, b) < b_eff
+}
+
 pub fn size_rule(layout: &Layout, b_eff: usize) -> Result<(u64, u64), String> {
     let levels = layout.trailer.levels as usize;
     let mut checked = 0u64;
     let mut full = 0u64;
+    let mut index_full = 0u64;
     for depth in 2..=levels + 1 {
         let ids = &layout.by_depth[depth];
         // last emitted block of this level = the one with the largest file offset
@@ -42,13 +64,16 @@ pub fn size_rule(layout: &Layout, b_eff: usize) -> Result<(u64, u64), String> {
                 ));
             }
             if pos + 1 < ids.len() {
-                if b.uncompressed_size() < b_eff {
+                if cut_too_early(b, &layout.blocks[ids[pos + 1]], b_eff) {
                     return Err(format!(
-                        "{what} block at offset {} (depth {depth}) was emitted at {} bytes, below the block size {b_eff}, although it is not the last of its level",
+                        "{what} block at offset {} (depth {depth}) was emitted at {} bytes although it is not the last of its level and even with the next entry it would not have reached the block size {b_eff}",
                         b.offset, b.uncompressed_size()
                     ));
                 }
                 full += 1;
+                if depth != levels + 1 {
+                    index_full += 1;
+                }
             }
         }
     }
@@ -63,14 +88,20 @@ pub fn size_rule(layout: &Layout, b_eff: usize) -> Result<(u64, u64), String> {
                 return Err(format!("data block at offset {} is {} bytes; without its final entry {wo} >= block size {b_eff}", b.offset, b.uncompressed_size()));
             }
             if pos + 1 < ids.len() {
-                if b.uncompressed_size() < b_eff {
-                    return Err(format!("data block at offset {} emitted at {} bytes < block size {b_eff} although not the last", b.offset, b.uncompressed_size()));
+                if cut_too_early(b, &layout.blocks[ids[pos + 1]], b_eff) {
+                    return Err(format!("data block at offset {} emitted at {} bytes although not the last and even with the next entry it would not have reached the block size {b_eff}", b.offset, b.uncompressed_size()));
                 }
                 full += 1;
             }
         }
     }
+    INDEX_CUT.with(|c| c.set(c.get() + index_full));
     Ok((checked, full))
+}
+
+thread_local! {
+    /// index blocks (>= 2 levels below the root) that were cut at the size threshold, per thread
+    pub static INDEX_CUT: std::cell::Cell<u64> = const { std::cell::Cell::new(0) };
 }
 
 pub fn check_spec(spec: &FileSpec) -> Result<(u64, u64), (String, String)> {
@@ -89,6 +120,8 @@ fn check_one(spec: &FileSpec, acc: &mut Acc) {
             acc.transitions += checked;
             acc.count("blocks_checked", checked);
             acc.count("blocks_cut_at_size", full);
+            let ic = INDEX_CUT.with(|c| c.replace(0));
+            acc.count("index_blocks_cut_at_size", ic);
             if full > 0 {
                 acc.nontrivial += 1;
                 acc.hist("file_with_cut_blocks");
@@ -200,7 +233,7 @@ pub fn run(tier: Tier) -> i32 {
     });
     acc.merge(a2);
     rep.acc = acc;
-    rep.set("rule", json!("E2: every file of the C01 population (all 8 block-size settings incl. 0, 1, 1023 -> clamp to 1024) is decoded by the independent decoder; for every data block and every index block >= 2 levels below the root: uncompressed size without its final entry (and without the offset slot that entry opened) < B_eff = max(1024, B), and every such block except the last emitted of its level has size >= B_eff; the same rule is applied to the chunk files a Sorter writes itself (spilled and merged chunks, obtained through into_reader_cursors over CursorVec chunks) for the configured block_size; states = files, transitions = blocks checked; distinct_nontrivial = files containing at least one block that was cut at the size threshold"));
+    rep.set("rule", json!("E2: every file of the C01 population (all 8 block-size settings incl. 0, 1, 1023 -> clamp to 1024) is decoded by the independent decoder; for every data block and every index block >= 2 levels below the root: uncompressed size without its final entry (and without the offset slot that entry opened) < B_eff = max(1024, B), and every such block except the last of its level either reached B_eff or would have reached it with the next entry (early cuts for no size reason are violations; both cut-after-reaching and cut-before-crossing are accepted); the same rule is applied to the chunk files a Sorter writes itself (spilled and merged chunks, obtained through into_reader_cursors over CursorVec chunks) for the configured block_size; states = files, transitions = blocks checked; distinct_nontrivial = files containing at least one block that was cut at the size threshold"));
     rep.set("bound", pop.describe());
     rep.finish()
 }
